@@ -12,7 +12,8 @@ RULE = ("each case takes two parts A and B (repository proteins, cut-outs, chime
         "Non-trivial: both parts have >= 2 titratable groups and >= 1 Coulomb determinant each; "
         "distinct = distinct (digest of A, digest of B, d)."
         " 25 % of the built cases run all four executions with a parameter file (common charge centres, shared determinants, penalised groups kept).")
-ASSUMPTIONS = ["parts are single-conformation (alternate locations are reduced to the first)"]
+ASSUMPTIONS = ["parts taken from files are reduced to their first alternate location; alternate locations are then added "
+               "under controlled labels (15 % of the built cases)"]
 TIMEOUT = {"quick": 2400, "thorough": 14400}
 DIST = (25.001, 25.001, 26.0, 30.0, 50.0, 100.0, 500.0, 999.0, 1000.5, 1500.0, 5000.0, 10900.0)
 
@@ -55,6 +56,30 @@ def single_conf(recs):
                 r = r.copy()
                 r.alt = " "
         out.append(r)
+    return out
+
+
+def add_altlocs(part, labels, rng):
+    """Side-chain atoms of 1-3 residues written once per label, later states moved by up to 0.3 A."""
+    if not labels:
+        return part
+    ids = sorted({(r.chain, r.resnum, r.icode) for r in part if r.raw is None and r.tag == "ATOM  "})
+    if not ids:
+        return part
+    chosen = set(rng.sample(ids, min(len(ids), rng.choice((1, 2, 3)))))
+    out = []
+    for r in part:
+        if r.raw is None and (r.chain, r.resnum, r.icode) in chosen and r.aname() not in ("N", "CA", "C", "O"):
+            for k, lab in enumerate(labels):
+                c = r.copy()
+                c.alt = lab
+                if k:
+                    c.x += rng.randrange(-300, 301)
+                    c.y += rng.randrange(-300, 301)
+                    c.z += rng.randrange(-300, 301)
+                out.append(c)
+        else:
+            out.append(r)
     return out
 
 
@@ -255,6 +280,15 @@ def run_case(case, tier):
     a, b = single_conf(sources.no_hydrogens(a)), single_conf(sources.no_hydrogens(b))
     if not pdbio.atoms(a) or not pdbio.atoms(b):
         return util.finish(case, viol, counts, classes, False, {"skipped": "empty part"}, inconclusive="empty part")
+    altsets = None
+    if case["kind"] == "built" and rng.random() < 0.15:
+        # alternate locations in the parts: with the same labels in both (or in one part only) every
+        # conformation of a part is the same alone and in the union; with different label sets the union has
+        # conformations a part does not have on its own
+        altsets = rng.choice((("AB", "AB"), ("AB", ""), ("", "ABC"), ("AB", "BC"), ("AB", "ABC"), ("12", "12")))
+        a = add_altlocs(a, altsets[0], rng)
+        b = add_altlocs(b, altsets[1], rng)
+        classes.append("alt-locs:%s/%s" % (altsets[0] or "-", altsets[1] or "-"))
     used = {r.chain for r in a if r.raw is None}
     same_ligand = None
     if case["kind"] == "built" and rng.random() < 0.3:
@@ -375,7 +409,12 @@ def run_case(case, tier):
         return util.finish(case, viol, counts, classes, False, desc)
     for uname, ru in (("A+B", rab), ("B+A", rba)):
         for pname, rp in (("A", ra), ("B", rb)):
+            same_confs = list(rp.rec["names"]) == list(ru.rec["names"])
             for cname in list(rp.rec["names"]) + ["AVR"]:
+                if cname not in ru.rec["confs"]:
+                    viol.append({"cls": "union-loses-conformation", "msg": "conformation %s of part %s has no counterpart in %s (%r)" % (
+                        cname, pname, uname, ru.rec["names"])})
+                    continue
                 ip, _ = obs.index_groups(rp.rec["confs"][cname])
                 iu, _ = obs.index_groups(ru.rec["confs"][cname])
                 for k, g in ip.items():
@@ -386,8 +425,13 @@ def run_case(case, tier):
                         continue
                     diffs = obs.compare_groups(g, h, tol=1e-7)
                     if diffs:
-                        viol.append({"cls": "distant-part-influences", "msg": "%s %s (part %s) in %s at %.3f A: %s" % (
-                            cname, g["label"], pname, uname, d_real, obs.brief(diffs, 3))})
+                        cls = "distant-part-influences"
+                        if cname == "AVR" and not same_confs:
+                            # the union has conformations this part does not have alone (created by the other part's
+                            # alternate-location labels); the part's average is then taken over more conformations
+                            cls = "distant-alt-loc-labels-change-the-average"
+                        viol.append({"cls": cls, "msg": "%s %s (part %s, conformations %r) in %s (conformations %r) at %.3f A: %s" % (
+                            cname, g["label"], pname, rp.rec["names"], uname, ru.rec["names"], d_real, obs.brief(diffs, 3))})
             # nothing extra in the union
         nu = len(ru.rec["confs"]["AVR"]["groups"])
         if nu != len(ra.rec["confs"]["AVR"]["groups"]) + len(rb.rec["confs"]["AVR"]["groups"]):
